@@ -235,7 +235,8 @@ EXTRA5 = {
            " The pool's __exit__ never waits without bound for room in a bounded work queue for stop orders nobody is left to read.",
     "C03": " Only the replace thread's run() takes items from the replace queue; the feeder's publication order and send accounting hold.",
     "C04": " stop() waits for the replace thread without a timeout.",
-    "C05": _DEFAULTS + " range(workers) sentinels are sent only when `workers` processes were started unconditionally.",
+    "C05": _DEFAULTS + " range(workers) sentinels are sent only when `workers` processes were started unconditionally."
+           " The results queues are unbounded multiprocessing queues (a worker's put of a result never waits for the producer).",
     "C06": _MIXIN + _DEFAULTS + " No stored value is used as a truth value; every capacity >= 1 is accepted; a failed delete / look-up changes nothing.",
     "C07": _MIXIN + _DEFAULTS + " No stored value is used as a truth value; every capacity >= 1 is accepted; a failed delete / look-up changes "
            "nothing; a membership test on the cache itself counts as the look-up it is.",
